@@ -71,8 +71,16 @@ fn intpack_u24nu8() {
     let b: u8 = kani::any();
     let mut v: Vec<u8> = Vec::new();
     raw.serialize_to_vec(&mut v);
-    let (mut p, _) = U24nU8::deserialize_from_slice(&v);
+    let t: u8 = kani::any();
+    v.push(t);
+    let (mut p, rest) = U24nU8::deserialize_from_slice(&v);
     assert!(p.a().get() == raw >> 8 && p.b() == (raw & 0xff) as u8);
+    // Serializable for U24nU8: four little-endian bytes of the packed word, exact inverse, the tail is handed back
+    assert!(rest.len() == 1 && rest[0] == t);
+    let mut w: Vec<u8> = Vec::new();
+    p.serialize_to_vec(&mut w);
+    assert!(w.len() == 4 && w[0] == v[0] && w[1] == v[1] && w[2] == v[2] && w[3] == v[3]);
+    assert!(<U24nU8 as Serializable>::serialized_bytes() == 4);
     match U24::try_from(a) {
         Ok(a24) => {
             assert!(a <= 0x00ff_ffff);
